@@ -28,6 +28,9 @@ Specials == {
   \* a key shortcut after a property whose line ends in an annotation (with a note, without one)
   Obj(<<P(Ka, Note(Lit(NumD(N1), <<R("min", NV(N0))>>), "the id")), SC("@K", Lit(NumD(N2), <<>>))>>, <<>>),
   Obj(<<P(Ka, Lit(NumD(N1), <<OptR>>)), SC("@K", Lit(NumD(N2), <<OptR>>)), P(Kb, One)>>, <<>>),
+  \* a note between a key and its value (on the next line) is the note of that value, not of the property before
+  Obj(<<P(Ka, Note(One, "a")), P(Kb, Lit(NumD(N2), <<>>) @@ [knote |-> "note for b"])>>, <<>>),
+  Obj(<<P(Ka, One), P(Kb, Obj(<<P(Kc, Note(One, "c"))>>, <<>>) @@ [knote |-> "for the object"]), SC("@K", Lit(NumD(N2), <<>>) @@ [knote |-> "for the key type"])>>, <<>>),
   \* a note after the closing brace belongs to the object; the notes of the properties inside stay theirs
   Obj(<<P(Ka, Note(One, "x")), P(Kb, Lit(StrD(Sa), <<OptR>>))>>, <<>>) @@ [tnote |-> "after the brace"],
   Obj(<<P(Ka, Obj(<<P(Kb, Note(One, "inner"))>>, <<>>) @@ [tnote |-> "after a"]), P(Kc, Note(One, "c"))>>, <<>>) @@ [tnote |-> "end"],
